@@ -19,6 +19,7 @@ import (
 	"io"
 	"net"
 	"os"
+	"runtime"
 	"strconv"
 	"strings"
 	"sync"
@@ -311,6 +312,8 @@ func c04Session(a []string) (out string) {
 	conn := &c04Conn{in: append([]byte{}, data...)}
 	obs := &c04Obs{policy: policy, conn: conn}
 	var sess *rtmp.ServerSession
+	var ms0, ms1 runtime.MemStats
+	runtime.ReadMemStats(&ms0)
 	outcome := func() (res string) {
 		defer func() {
 			if r := recover(); r != nil {
@@ -323,6 +326,7 @@ func c04Session(a []string) (out string) {
 		}
 		return c04Err(sess.RunLoop())
 	}()
+	runtime.ReadMemStats(&ms1)
 	reserved, streams := sess.VerifC04ReservedBytes()
 	sawEnd := outcome == "eof" || outcome == "ueof"
 	hs, w := c04Replies(conn, obs, sawEnd)
@@ -339,8 +343,10 @@ func c04Session(a []string) (out string) {
 		rtmp.NewServer("", obs2).VerifC04HandleTcpConnect(conn2)
 		return ""
 	}()
-	return fmt.Sprintf("%s hs=%s ev=%s w=%s sh=%s%s mem=%s:%s", outcome, hs, c04Join(obs.ev), tokBytes(w), c04Kinds(obs2.ev), shell,
-		tokNum(uint64(reserved)), tokNum(uint64(streams)))
+	// alloc: bytes the Go heap handed out while the session ran (all of it: buffers, AMF values, log text, the
+	// harness's own copies); not modelled, checked by the python oracle against the bytes received
+	return fmt.Sprintf("%s hs=%s ev=%s w=%s sh=%s%s mem=%s:%s alloc=%s", outcome, hs, c04Join(obs.ev), tokBytes(w), c04Kinds(obs2.ev), shell,
+		tokNum(uint64(reserved)), tokNum(uint64(streams)), tokNum(ms1.TotalAlloc-ms0.TotalAlloc))
 }
 
 // c04.rss: peak resident set size of this process so far (VmHWM, KiB); used by
